@@ -125,9 +125,12 @@ type FnTrans struct {
 	curState *BState
 	curEnv   *Env
 	idxCands []Val
+	usedGlobalInvs map[string]Clause
+	modAllowed []string
 	heapAnc  map[string][]*frameFact
 	frameDone map[string]bool
 	loopObjs []*ssa.Alloc
+	loopObjPaths map[*ssa.Alloc][][]int
 	pendingDecoded []pendingDec
 	symAllocs []string
 	reinst   []func([]Val)
